@@ -242,6 +242,23 @@ def rule_skip(ctx):
                         r = ctx.cg.resolve_name_expr(f, c.args[1])
                         if r and r[0] == 'class' and r[1] is inv:
                             skip_names.add(n.targets[0].id)
+        # ... or written directly into the call: simple_cycles(g, skip_nodes={..})
+        inline_skip = False
+        for c in calls:
+            for a in list(c.args) + [k.value for k in c.keywords]:
+                for x in ast.walk(a):
+                    if isinstance(x, (ast.SetComp, ast.ListComp,
+                                      ast.GeneratorExp)) and any(
+                            isinstance(y, ast.Call) and isinstance(
+                                y.func, ast.Name) and y.func.id == 'isinstance'
+                            and len(y.args) == 2 and (
+                                ctx.cg.resolve_name_expr(f, y.args[1]) or
+                                (None, None))[1] is inv for y in ast.walk(x)):
+                        inline_skip = True
+        if inline_skip:
+            rr.ok('%s removes InvRangesAssembler nodes before enumerating '
+                  'cycles' % q, '%s:%d' % (f.module.rel, calls[0].lineno))
+            continue
         # ... or filled in a loop: `if isinstance(x, InvRangesAssembler): S.add(k)`
         for n in own_nodes(f):
             if isinstance(n, ast.If) and any(
@@ -271,8 +288,13 @@ def rule_skip(ctx):
             for a in c.args[:1]:
                 if isinstance(a, ast.Name):
                     for n in own_nodes(f):
+                        # `g = {... - skip}` or, filled in a loop,
+                        # `g[v] = set(nbrs) - skip`
                         if isinstance(n, ast.Assign) and any(
-                                isinstance(t, ast.Name) and t.id == a.id
+                                (isinstance(t, ast.Name) and t.id == a.id) or (
+                                    isinstance(t, ast.Subscript) and isinstance(
+                                        t.value, ast.Name) and
+                                    t.value.id == a.id)
                                 for t in n.targets):
                             if {x.id for x in ast.walk(n.value)
                                     if isinstance(x, ast.Name)} & skip_names:
@@ -302,8 +324,26 @@ def rule_ord(ctx, scope_funcs=None, prop='C10', rule='C10.ord', floor=4):
     p = ctx.project
     oa = OrderAnalysis(ctx)
     if scope_funcs is None:
-        scope_funcs = [p.func(rel, q) for rel, q in ORD_SCOPE]
-        scope_funcs += p.module('formulas/excel/cycle.py').all_funcs
+        # the two entry points of the cycle analysis and whatever package
+        # functions they call (their helpers may be renamed or moved)
+        roots = [p.func(rel, q) for rel, q in ORD_SCOPE[:1] + ORD_SCOPE[-1:]]
+        scope_funcs = list(roots)
+        work = [(r, 0) for r in roots]
+        while work:
+            g, d = work.pop()
+            if d >= 2:
+                continue
+            for e in ctx.cg.out(g):
+                if e.is_ext or e.kind not in ('call', 'ref') or \
+                        e.precision != 'exact' or e.dst.name == '__init__':
+                    continue
+                if e.dst not in scope_funcs and (
+                        e.dst.module.rel.startswith('formulas/excel/')):
+                    scope_funcs.append(e.dst)
+                    work.append((e.dst, d + 1))
+        for g in p.module('formulas/excel/cycle.py').all_funcs:
+            if g not in scope_funcs:
+                scope_funcs.append(g)
     for f in scope_funcs:
         sites, finds = oa.analyse(f)
         for s in sites:
